@@ -60,6 +60,8 @@ pub struct Attempt {
 pub enum Case {
     History { retention: u8, initial: Vec<SetGen>, attempts: Vec<Attempt> },
     Ctor { sets: Vec<Cand> },
+    /// entry-point sweep (see sweep.rs)
+    Sweep(crate::sweep::SweepCase),
 }
 
 fn malform() -> impl Strategy<Value = Malform> {
@@ -248,7 +250,7 @@ impl Property for C03 {
         "C03"
     }
     fn rule(&self) -> &'static str {
-        "proptest: (a) gateway with retention 0-3 or u64::MAX(-1) and 1-3 initial sets, history of <=8 (quick) / <=14 (thorough) rotation attempts, each = candidate (fresh well-formed set with boundary weights/thresholds; or one malformation: empty, adjacent equal keys (same, larger or smaller weight on the repeat), descending pair, all-zero first key, zero weight, weights summing past u128, threshold 0 / total+1; or a repeat of an installed set; or an installed set's signers under a new nonce, which is a different set) x proving set (latest, any installed, never installed, latest signing a different candidate) x bypass x operator authorisation; (b) constructor cases with 0-4 such candidates. Oracle: well-formedness predicate from the statement, reference epoch/lookup model with independent set hashes, inverse-lookup invariant over every epoch and every hash ever attempted after each step, ledger-snapshot equality after every failure. non-trivial = a malformed or repeated candidate, or a non-latest proving set, occurs"
+        "proptest: (a) gateway with retention 0-3 or u64::MAX(-1) and 1-3 initial sets, history of <=8 (quick) / <=14 (thorough) rotation attempts, each = candidate (fresh well-formed set with boundary weights/thresholds; or one malformation: empty, adjacent equal keys (same, larger or smaller weight on the repeat), descending pair, all-zero first key, zero weight, weights summing past u128, threshold 0 / total+1; or a repeat of an installed set; or an installed set's signers under a new nonce, which is a different set) x proving set (latest, any installed, never installed, latest signing a different candidate) x bypass x operator authorisation; (b) constructor cases with 0-4 such candidates. Oracle: well-formedness predicate from the statement, reference epoch/lookup model with independent set hashes, inverse-lookup invariant over every epoch and every hash ever attempted after each step, ledger-snapshot equality after every failure. non-trivial = a malformed or repeated candidate, or a non-latest proving set, occurs. A share of the random cases is an entry-point sweep (construction as described for C13: the exported functions of all shipped contracts read from the sources of the tree under test, a complete deployed system, pooled arguments - including well-formed signer sets nobody installed and proofs properly signed by the gateway's own signer set over digests that belong to no command -, every require_auth satisfied by the host's mock and recorded; entry points absent from the pinned inventory get 300 deterministic cases each); oracle: no call changes the epoch or emits signers_rotated since no valid proof for any rotation exists in these cases; non-trivial = the call succeeded"
     }
     fn assumptions(&self) -> Vec<&'static str> {
         vec!["a well-formed set whose first key is all-zero is not decided by the statement (Either)"]
@@ -258,16 +260,20 @@ impl Property for C03 {
     }
     fn strategy(&self, tier: Tier) -> BoxedStrategy<Case> {
         let n = tier.pick(8usize, 14usize);
-        prop_oneof![
+        let direct = prop_oneof![
             4 => (0u8..6, proptest::collection::vec(setgen(5), 1..4), proptest::collection::vec(attempt(), 1..=n))
                 .prop_map(|(retention, initial, attempts)| Case::History { retention, initial, attempts }),
             1 => proptest::collection::vec(cand(), 0..5).prop_map(|sets| Case::Ctor { sets }),
         ]
-        .boxed()
+        .boxed();
+        match crate::sweep::strategy(crate::sweep::Rule::Proofless) {
+            Some(sw) => prop_oneof![9 => direct, 1 => sw.prop_map(Case::Sweep)].boxed(),
+            None => direct,
+        }
     }
     fn fixed_cases(&self, _tier: Tier) -> Vec<Case> {
         let g = |s: Vec<u16>| SetGen { w: vec![WClass::Small(2); s.len()], seeds: s, t: TClass::Total };
-        let mut v = vec![];
+        let mut v: Vec<Case> = crate::sweep::fixed_cases(300).into_iter().map(Case::Sweep).collect();
         for m in [
             Malform::Empty,
             Malform::AdjacentEqual(0),
@@ -300,6 +306,7 @@ impl Property for C03 {
     fn run(&self, case: &Case, cx: &mut Cx) -> Result<(), String> {
         let env = new_env();
         match case {
+            Case::Sweep(sw) => return crate::sweep::run(sw, cx, crate::sweep::Rule::Proofless),
             Case::Ctor { sets } => {
                 cx.label("constructor_case");
                 let mut built: Vec<BuiltSet> = vec![];
